@@ -108,6 +108,10 @@ mod globset {
             ensures
                 r matches Ok(s) ==> glob_set_build(globs@) == Some(s),
                 r is Err ==> glob_set_build(globs@) is None,
+                // the same two facts for a one-element array, with the sequence spelled out (for N == 1,
+                // `globs@ == seq![globs@[0]]` holds by extensionality, which the solver does not apply by itself)
+                N == 1 ==> (r matches Ok(s) ==> glob_set_build(seq![globs@[0]]) == Some(s)),
+                N == 1 ==> (r is Err ==> glob_set_build(seq![globs@[0]]) is None),
         { unimplemented!() }
 
         #[verifier::external_body]
